@@ -514,6 +514,21 @@ func c13PipeCase(p c13Pipe, pos string) *Case {
 
 func runC13(r *Run, replay *Case) {
 	if replay != nil {
+		switch replay.Input["op"] {
+		case "callconv":
+			vi := int(replay.Input["vi"].(float64))
+			for _, pt := range c13PTypes {
+				if pt.name == replay.Input["p"] && vi < len(c13CallValues()) {
+					r.Add(c13CallConvCase(pt, vi, c13CallValues()[vi]))
+				}
+			}
+			return
+		case "callarity":
+			if c := c13CallArityCase(int(replay.Input["params"].(float64)), replay.Input["variadic"] == true, int(replay.Input["nargs"].(float64))); c != nil {
+				r.Add(c)
+			}
+			return
+		}
 		switch replay.Input["stream"] {
 		case "pipe":
 			for _, p := range c13Pipes() {
@@ -585,6 +600,7 @@ func runC13(r *Run, replay *Case) {
 		}
 	}
 	c13ConvCases(r)
+	c13CallModel(r)
 	c13TypeAlternation(r)
 	c13NameClash(r)
 	c13MissingStep(r)
